@@ -40,6 +40,30 @@ func init() {
 		s = strings.TrimSuffix(strings.TrimPrefix(s, `allockind("`), `")`)
 		return hexOut([]byte(s))
 	})
+	// C18 in situ: the keyword printed for a FloatType follows its CURRENT Kind (print as <from>, set Kind = <to>, print inside a module, parse back)
+	reg("kw.floathist", func(a []string) string {
+		from, to := types.FloatKind(uintArg(a[0])), types.FloatKind(uintArg(a[1]))
+		t := &types.FloatType{Kind: from}
+		_ = t.String()
+		_ = t.LLString()
+		t.Kind = to
+		m := ir.NewModule()
+		m.NewFunc("f", t)
+		cp := *t
+		cp.Kind = from
+		m.NewFunc("g", &cp)
+		m2, err := asm.ParseString("x.ll", m.String())
+		if err != nil {
+			return "FAIL error"
+		}
+		for i, want := range []types.FloatKind{to, from} {
+			ft, ok := m2.Funcs[i].Sig.RetType.(*types.FloatType)
+			if !ok || ft.Kind != want {
+				return fmt.Sprintf("FAIL kind %s printed as %s", want, m2.Funcs[i].Sig.RetType)
+			}
+		}
+		return "ok"
+	})
 	reg("flags.rt", func(a []string) string {
 		v := uintArg(a[1])
 		switch a[0] {
